@@ -167,12 +167,39 @@ fn canon(m: &AMod, op: &AOp, fmap: Option<&HashMap<u32, u32>>, lmap: Option<&mut
             Arg::Ref(Space::Func, n) => s.push_str(&format!("f:{}", fmap.map(|f| f.get(n).copied().unwrap_or(u32::MAX)).unwrap_or(*n))),
             Arg::Ref(Space::Type, n) => s.push_str(&format!("y:{}", m.types.get(*n as usize).map(sig_text).unwrap_or("?".into()))),
             Arg::Ref(Space::Local, _) => s.push_str("x:_"),
+            // an element or data segment operand must denote the same segment: index and content
+            Arg::Ref(Space::Elem, n) => s.push_str(&format!("e:{}[{}]", n, elem_sig(m, *n, fmap))),
+            Arg::Ref(Space::Data, n) => s.push_str(&format!("d:{}[{}]", n, m.datas.get(*n as usize).map(|d| format!("{}:{}", matches!(d.mode, crate::decode::DataMode::Passive) as u8, crate::out::hex(&d.bytes))).unwrap_or("?".into()))),
             Arg::Ref(sp, n) => s.push_str(&format!("{}:{}", sp.tag(), n)),
             Arg::Imm(i) => s.push_str(&format!("i:{}", i)),
             Arg::Bt(bt) => s.push_str(&format!("b{}", bt_sig(m, bt))),
         }
     }
     s
+}
+
+/// what an element segment is, with function indices followed through the round trip
+fn elem_sig(m: &AMod, n: u32, fmap: Option<&HashMap<u32, u32>>) -> String {
+    let f = |x: u32| fmap.map(|fm| fm.get(&x).copied().unwrap_or(u32::MAX)).unwrap_or(x);
+    match m.elems.get(n as usize) {
+        None => "?".into(),
+        Some(e) => {
+            let mode = match &e.mode {
+                crate::decode::ElemMode::Active { table, .. } => format!("a{}", table.unwrap_or(0)),
+                crate::decode::ElemMode::Passive => "p".into(),
+                crate::decode::ElemMode::Declared => "d".into(),
+            };
+            let items = match &e.items {
+                crate::decode::ElemItems::Funcs(fs) => fs.iter().map(|x| f(*x).to_string()).collect::<Vec<_>>().join(","),
+                crate::decode::ElemItems::Exprs(_, es) => es
+                    .iter()
+                    .map(|c| c.ops().iter().map(|o| match o.args.first() { Some(Arg::Ref(Space::Func, x)) => f(*x).to_string(), Some(Arg::Ref(sp, x)) => format!("{}{}", sp.tag(), x), _ => "n".into() }).collect::<Vec<_>>().join("."))
+                    .collect::<Vec<_>>()
+                    .join(","),
+            };
+            format!("{}:{}", mode, items)
+        }
+    }
 }
 
 fn local_of(op: &AOp) -> Option<u32> {
